@@ -130,17 +130,17 @@ func TestVerifReplay(t *testing.T) {
 func cmdReplay(args []string) {
 	if len(args) < 1 {
 		fmt.Fprintln(os.Stderr, "usage: bmverif replay <path>")
-		os.Exit(2)
+		exit(2)
 	}
 	data, err := os.ReadFile(args[0])
 	if err != nil {
 		fmt.Fprintln(os.Stderr, err)
-		os.Exit(2)
+		exit(2)
 	}
 	var doc map[string]interface{}
 	if err := json.Unmarshal(data, &doc); err != nil {
 		fmt.Fprintln(os.Stderr, err)
-		os.Exit(2)
+		exit(2)
 	}
 	fmt.Printf("property %v\nobligation %v\nreason %v\n", doc["property"], doc["obligation"], doc["reason"])
 	if r, ok := doc["replay"].(map[string]interface{}); ok {
